@@ -11,27 +11,27 @@ ALLMODS = ["vikja", "odal", "dagaz"]
 
 # property -> invariants of RelayTrace, exhaustive families (+ action properties), vacuity requirements
 RELAY = {
-    "C01": dict(invs=["Ok_C01"], mc=[("core", ["P_C01"]), ("comps", ["P_C01"]), ("mods", ["P_C01"])],
+    "C01": dict(focus=['comps', 'mods', 'core'], invs=["Ok_C01"], mc=[("core", ["P_C01"]), ("comps", ["P_C01"]), ("mods", ["P_C01"])],
                 need=dict(joins_existing=20, relays=200, comp_changes=20, action_ok=5, asset_ok=5, departures=20)),
-    "C02": dict(invs=["Ok_C02"], mc=[("core", ["P_C02"]), ("mods", ["P_C02"]), ("pose", ["P_C02"])],
+    "C02": dict(focus=['core', 'pose'], invs=["Ok_C02"], mc=[("core", ["P_C02"]), ("mods", ["P_C02"]), ("pose", ["P_C02"])],
                 need=dict(relays=200, refused=50, departures=20, pose_ok=10)),
     "C03": dict(invs=["Ok_C03"], mc=[("core", ["P_C03"]), ("ids", ["P_C03"])],
                 need=dict(multi_session_steps=100)),
-    "C04": dict(invs=["Ok_C04"], mc=[("core", ["P_C04"]), ("comps", ["P_C04"]), ("mods", ["P_C04"]), ("custom", ["P_C04"])],
+    "C04": dict(focus=['comps', 'mods', 'custom'], invs=["Ok_C04"], mc=[("core", ["P_C04"]), ("comps", ["P_C04"]), ("mods", ["P_C04"]), ("custom", ["P_C04"])],
                 need=dict(refused=100, not_joined=30, kinds=18)),
-    "C05": dict(invs=["Ok_C05"], mc=[("core", ["P_C05"]), ("mods", ["P_C05"]), ("pose", ["P_C05"])],
+    "C05": dict(focus=['core', 'mods'], invs=["Ok_C05"], mc=[("core", ["P_C05"]), ("mods", ["P_C05"]), ("pose", ["P_C05"])],
                 need=dict(foreign_attempts=10, departures=20)),
-    "C06": dict(invs=["Ok_C06", "Ok_C06b"], mc=[("core", ["P_C06"]), ("comps", ["P_C06"]), ("mods", ["P_C06"])],
+    "C06": dict(focus=['core', 'comps', 'mods'], invs=["Ok_C06", "Ok_C06b"], mc=[("core", ["P_C06"]), ("comps", ["P_C06"]), ("mods", ["P_C06"])],
                 need=dict(departures=30, departures_with_entities=10, switches=3)),
     "C07": dict(invs=["Ok_C07"], mc=[("ids", ["P_C07"]), ("core", ["P_C07"])],
                 need=dict(sessions_created=30, sessions_ended=10)),
     "C10": dict(invs=["Ok_C10"], mc=[("ids", ["P_C10"]), ("comps", ["P_C10"]), ("mods", ["P_C10"])],
                 need=dict(sessions_created=30, sessions_ended=10, entity_adds=50)),
-    "C11": dict(invs=["Ok_C11"], mc=[("pose", ["P_C11"])], need=dict(pose_ok=20, ticks=50, pose_dropped=10)),
-    "C12": dict(invs=["Ok_C12"], mc=[("comps", ["P_C12"])], need=dict(comp_changes=30, comp_refused=20)),
-    "C13": dict(invs=["Ok_C13"], mc=[("comps", ["P_C13"])], need=dict(comp_relays=20, subs=20)),
-    "C14": dict(invs=["Ok_C14", "Ok_C14b"], mc=[("custom", ["P_C14"])], need=dict(custom=40, custom_too_large=5, custom_targeted=10)),
-    "C16": dict(invs=["Ok_C16"], mc=[("mods", ["P_C16"])], need=dict(action_ok=10, action_refused=10, asset_ok=10)),
+    "C11": dict(focus=['pose'], invs=["Ok_C11"], mc=[("pose", ["P_C11"])], need=dict(pose_ok=20, ticks=50, pose_dropped=10)),
+    "C12": dict(focus=['comps'], invs=["Ok_C12"], mc=[("comps", ["P_C12"])], need=dict(comp_changes=30, comp_refused=20)),
+    "C13": dict(focus=['comps'], invs=["Ok_C13"], mc=[("comps", ["P_C13"])], need=dict(comp_relays=20, subs=20)),
+    "C14": dict(focus=['custom'], invs=["Ok_C14", "Ok_C14b"], mc=[("custom", ["P_C14"])], need=dict(custom=40, custom_too_large=5, custom_targeted=10)),
+    "C16": dict(focus=['mods'], invs=["Ok_C16"], mc=[("mods", ["P_C16"])], need=dict(action_ok=10, action_refused=10, asset_ok=10)),
 }
 
 
@@ -82,10 +82,13 @@ def drain_steps(conns=4, sids=(1, 2, 3)):
     return st
 
 
-def gen_random_histories(work, n, depth, seed, mods, tag, conns=4):
+def gen_random_histories(work, n, depth, seed, mods, tag, conns=4, kinds=None):
     out = work.path("rand-" + tag + ".ndjson")
-    subprocess.run([sys.executable, os.path.join(VERIF, "tools", "genhist.py"), "--seed", str(seed), "--n", str(n),
-                    "--depth", str(depth), "--conns", str(conns), "--mods", ",".join(mods), "--out", out], check=True)
+    cmd = [sys.executable, os.path.join(VERIF, "tools", "genhist.py"), "--seed", str(seed), "--n", str(n),
+           "--depth", str(depth), "--conns", str(conns), "--mods", ",".join(mods), "--out", out]
+    if kinds:
+        cmd += ["--kinds", ",".join(kinds)]
+    subprocess.run(cmd, check=True)
     return read_ndjson(out)
 
 
@@ -310,8 +313,15 @@ def run_relay_check(work, prop, tier, replay=None):
         for i, mods in enumerate(modsets_for(tier, seed)):
             tag = "m%d" % i
             full = (i == 0)
-            hs = gen_tlc_histories(work, sz["gen_n"] if full else sz["sub_gen"], sz["gen_depth"], seed * 1000 + i, mods, tag)
-            hs += gen_random_histories(work, sz["rand_n"] if full else sz["sub_rand"], sz["rand_depth"], seed * 1000 + i, mods, tag)
+            ng, nr = (sz["gen_n"], sz["rand_n"]) if full else (sz["sub_gen"], sz["sub_rand"])
+            hs = gen_tlc_histories(work, ng // 2, sz["gen_depth"], seed * 1000 + i, mods, tag)
+            hs += gen_random_histories(work, nr // 2, sz["rand_depth"], seed * 1000 + i, mods, tag)
+            for fi, fam in enumerate(spec.get("focus", ["core"])):
+                fo = relay_cfg.FOCUS[fam]
+                k = len(spec.get("focus", ["core"]))
+                hs += gen_tlc_histories(work, max(10, ng // 2 // k), sz["gen_depth"], seed * 1000 + i + 500 + fi, mods, tag + "f" + fam, **fo)
+                hs += gen_random_histories(work, max(10, nr // 2 // k), sz["rand_depth"], seed * 1000 + i + 500 + fi, mods, tag + "f" + fam,
+                                           kinds=fo["Kinds"])
             hs += scenario_histories(mods)
             groups.append((mods, hs))
 
